@@ -45,3 +45,14 @@ package transport
 //@   assert call json.Marshal: forall(k, string, imp(has(keyvals, k), kvCarried(keyvals, converted, k)))
 //@   loop 1 invariant converted != nil && forall(k, string, imp(visited(k), kvCarried(keyvals, converted, k)))
 //@   ensures imp(has(keyvals, "reconnect") && keyvals["reconnect"] != "true" && keyvals["reconnect"] != "false", result != nil)
+
+// ---------------------------------------------------------------- C17: what a dialer announces
+// Every dialer names level and window explicitly (whatever their values, zero included) together
+// with its encoding, reconnect flag and transport ids: the acceptor then derives the same
+// compression settings from the parameters alone, never from a default of its own.
+//@ func (DialConfig).NegotiationParams
+//@   props C17
+//@   ensures result.CompressLevel != nil && *result.CompressLevel == c.CompressConfig.Level
+//@   ensures result.CompressWindowBits != nil && *result.CompressWindowBits == c.CompressConfig.WindowBits
+//@   ensures result.Encoding == c.EncodingName && result.Reconnect == c.Reconnect && result.TransportID == c.TransportID
+//@   ensures result.TransportGroupID == c.TransportGroupID && result.TransportGroupTotalCount == c.TransportGroupTotalCount && result.TransportGroupIndex == c.TransportGroupIndex
